@@ -17,6 +17,12 @@
 static __thread dyn_array(struct lp_msg *) free_list = {0};
 static __thread dyn_array(struct lp_msg *) at_gvt_list = {0};
 
+#ifdef ROOTSIM_VERIF
+// verification hooks: observe (and poison) message buffers as they are obtained and released
+extern void verif_hook_msg_alloc(struct lp_msg *msg);
+extern void verif_hook_msg_free(struct lp_msg *msg);
+#endif
+
 /**
  * @brief Initialize the message allocator thread-local data structures
  */
@@ -59,6 +65,9 @@ struct lp_msg *msg_allocator_alloc(unsigned payload_size)
 		ret = array_pop(free_list);
 	}
 	ret->pl_size = payload_size;
+#ifdef ROOTSIM_VERIF
+	verif_hook_msg_alloc(ret);
+#endif
 	return ret;
 }
 
@@ -68,6 +77,9 @@ struct lp_msg *msg_allocator_alloc(unsigned payload_size)
  */
 void msg_allocator_free(struct lp_msg *msg)
 {
+#ifdef ROOTSIM_VERIF
+	verif_hook_msg_free(msg);
+#endif
 	if(likely(msg->pl_size <= MSG_PAYLOAD_BASE_SIZE))
 		array_push(free_list, msg);
 	else
